@@ -32,6 +32,19 @@ def bounds(tier, quick=(4, 3), thorough=(5, 3)):
     return thorough if tier == 'thorough' else quick
 
 
+def pinned_override(pid, tier, cov, te, expected, invariants=(), properties=()):
+    """anti-vacuity for fix 70d1dd5: with the record of an overridden file written only once (OverrideStale) TLC must find
+    the old counterexample on program override3"""
+    import histories
+    p = dict([x for x in programs.deep_programs() if x['name'] == 'override3'][0], override_stale=True)
+    d = common.workdir('%s_%s_pinned' % (pid, tier))
+    r, _ = histories.gen_histories(p, d, max_hist=7, max_cmds=5, invariants=list(invariants), properties=list(properties), workers=6)
+    cov.setdefault('pinned_counterexamples', []).append(
+        {'program': 'override3', 'switch': 'OverrideStale', 'expected': expected, 'found': r.violated})
+    if r.violated != expected:
+        te.append('anti-vacuity: override3 with OverrideStale should violate %s, TLC says %s' % (expected, r.violated or r.error))
+
+
 def c01(tier):
     family = programs.all_programs() + programs.deep_programs()
     v, cov, te, wall = syscheck.run_family(
@@ -51,11 +64,12 @@ def c02(tier):
         bounds(tier), sample_n=None if tier == 'thorough' else 40,
         note='MustRun reference over ghost history gh (content generations seen at the last successful build); '
              'NoOverBuild on every script start of a redo-ifchange command, NoUnderBuild after every exit-0 command')
+    pinned_override('C02', tier, cov, te, 'NoOverBuild', properties=['NoOverBuild'])
     return finish('C02', tier, v, cov, te, wall)
 
 
 def c03(tier):
-    family = fam(['stamped1plain', 'stamped1always', 'stamped2plain', 'stamped_nested', 'stamp_toggle', 'stamped_deep'])
+    family = fam(['stamped1plain', 'stamped1always', 'stamped2plain', 'stamped_nested', 'stamp_toggle', 'stamped_deep', 'stamp_diamond', 'stamp_chain2'])
     v, cov, te, wall = syscheck.run_family(
         'C03', tier, family, ['Fresh', 'NoUnderBuild', 'NoDupRun'], ['NoOverBuild'],
         {'rc', 'ran', 'file', 'row.csum', 'row.changed', 'row.checked'},
@@ -76,7 +90,7 @@ def c05(tier):
 
 
 def c11(tier):
-    family = fam(['roles', 'defaults', 'chain', 'override2'])
+    family = fam(['roles', 'defaults', 'chain', 'override2', 'override3'])
     v, cov, te, wall = syscheck.run_family(
         'C11', tier, family, ['Fresh'], ['NoTrample'],
         {'rc', 'file', 'row.gen', 'row.ovr', 'ran'},
@@ -124,7 +138,7 @@ def c04(tier):
 
 
 def c17(tier):
-    family = programs.query_family()
+    family = programs.query_family() + fam(['override3'])
     v, cov, te, wall = syscheck.run_family(
         'C17', tier, family,
         ['TargetsSourcesPartition', 'OodLower', 'OodUpper', 'OodEmptyAfterBuild', 'Fresh', 'NoUnderBuild'], ['NoOverBuild'],
@@ -134,6 +148,7 @@ def c17(tier):
         note='redo-ood/targets/sources inserted at every position of the histories; the query output must equal '
              'the specification\'s, the database must be unchanged by it, and the rest of the history must behave '
              'as the specification says (which treats a query as a no-op except for the run id)')
+    pinned_override('C17', tier, cov, te, 'OodEmptyAfterBuild', invariants=['OodEmptyAfterBuild'])
     return finish('C17', tier, v, cov, te, wall)
 
 
@@ -353,6 +368,29 @@ ASSUME_MULTI = [
 ]
 
 
+def pairs_part(pid, tier, verdict, cov, te):
+    """two top-level commands in flight in RedoSys (histories with `par` steps): every interleaving of the two invocations in
+    TLC, the real pair of commands must end as one of the specification's alternatives"""
+    fam_ = programs.pair_family()
+    if tier != 'thorough':
+        fam_ = [p for p in fam_ if p['name'] in ('pair_chain', 'pair_stamp', 'pair_fail')]
+    v, cov2, te2, wall2 = syscheck.run_family(
+        pid, tier, fam_, ['ParFresh', 'ParFailPropagates', 'ParNoTmpLeft', 'ScriptMutex', 'HoldThroughRecord',
+                          'ScriptUnderLock', 'NotHung', 'NoPanic', 'Fresh'], [],
+        None, (3, 4), sample_n=None if tier == 'thorough' else 16, jitter=True, repeat=6 if tier == 'thorough' else 2,
+        min_cmds=1, verdict=verdict, subdir='pairs', required_actions=['InitRunA', 'EndPar'],
+        note='two invocations at once inside RedoSys')
+    te += te2
+    cov['pair_states'] = cov2['states']
+    cov['pair_programs'] = cov2['programs']
+    cov['pair_history_inputs'] = cov2['history_inputs_enumerated']
+    cov['pair_behaviours_replayed'] = cov2['behaviours_replayed']
+    cov['pair_invariants'] = cov2['invariants']
+    cov['states'] = cov.get('states', 0) + cov2['states']
+    cov['transitions'] = cov.get('transitions', 0) + cov2['transitions']
+    cov['traces_validated_against_impl'] = cov.get('traces_validated_against_impl', 0) + cov2['traces_validated_against_impl']
+
+
 def c06(tier):
     import time
     import multicheck
@@ -370,6 +408,8 @@ def c06(tier):
     cov['behaviours_replayed_on_real_code'] = cov.get('traces_validated_against_impl', 0)
     cov.update(real)
     cov['traces_validated_against_impl'] = real['traces_validated_against_impl'] + cov['behaviours_replayed_on_real_code']
+    # (c) two invocations at once inside RedoSys: every interleaving, outcomes compared
+    pairs_part('C06', tier, verdict, cov, te)
     cov['note'] = ('(a) TLC: ScriptMutex / HoldThroughRecord / ScriptUnderLock on every interleaving of parallel process trees '
                    '(RedoSys); (b) 2-6 top-level commands started together on random DAGs (fresh and existing state dirs, '
                    'failing scripts, checksummed targets, log capture): every lock grant/release, decision, script begin/end, '
@@ -390,6 +430,9 @@ def c16(tier):
     real = multicheck.run_check('C16', tier, 'db', verdict)
     cov.update(real)
     cov['exhaustive'] = True
+    # (c) two invocations at once inside RedoSys: exit statuses and every row and edge left behind must be those of one
+    # interleaving the specification allows (nothing lost, no failure that the scripts do not explain)
+    pairs_part('C16', tier, verdict, cov, te)
     cov['note'] = ('(a) TLC: RedoDb (SQLite WAL rules + the transaction scripts of the commands) for 2-4 concurrent builds and '
                    'queries, with and without an existing database: NoSpuriousFailure, NoLostState, RunIdsDistinct, NotStuck; '
                    'the pinned start-up (deferred transaction, exists/unlink/create) is kept as a mode and must yield the '
